@@ -2343,7 +2343,11 @@ namespace bloch::compiler {
                 for (const auto& ctor : base->constructors) {
                     if (!isAccessible(ctor.visibility, base->name, m_currentClass))
                         continue;
-                    auto cost = paramsConversionCost(ctor.paramTypes, actualTypes);
+                    // the base constructor's parameters, with the base's type parameters
+                    // replaced by the arguments of this class's 'extends Base<...>' clause
+                    auto cost = paramsConversionCost(
+                        substituteMany(ctor.paramTypes, base->typeParams, cur->baseTypeArgs),
+                        actualTypes);
                     if (!cost)
                         continue;
                     if (*cost < bestCost) {
